@@ -76,7 +76,9 @@ FinComplete(p1, p2) ==
         ELSE \E i \in DOMAIN St.fin : St.fin[i].s = s /\ St.fin[i].h = p2.fst[s][2]
 HighestMatches(p1, p2) ==
   LET direct == {St.fin[i].s : i \in {j \in DOMAIN St.fin : ~St.fin[j].implicit}}
-  IN (direct # {} => \E s \in direct : s = p2.highest) /\ (direct = {} => p2.highest = p1.highest)
+      top == IF direct = {} THEN 0 ELSE CHOOSE s \in direct : \A t \in direct : t <= s
+  \* (a direct finalization of an OLDER slot - the gap below an already finalized slot closes late - leaves it)
+  IN p2.highest = (IF top > p1.highest THEN top ELSE p1.highest)
 
 PoolResult(r, accepted) ==
   /\ r.panic = ""
